@@ -33,10 +33,28 @@ def run_case(cs):
     tree = world.gen_tree(rng, max_files=rng.choice([1, 3, 6]), max_dirs=rng.choice([0, 1, 3]), min_files=1)
     d = cs.dir()
     rootname = "R" + world.gen_name(rng, rng.choice(["plain", "space", "uni", "xml", "punct", "dotend", "dotunder", "dot"]), ext=False)
+    if rng.random() < 0.03:
+        # a folder name that just fits into a manifest name (NNNN_<folder>_<18 chars>.mhl <= 255 bytes)
+        rootname = rng.choice(["R" + "x" * rng.randint(222, 226), "\u30ea\u30fc\u30eb" * 25 + "ab"[: rng.randint(0, 2)]])
+        cs.count("root_names_of_223_to_227_bytes")
     root = os.path.join(d, rootname)
     world.write_tree(root, tree)
     subdirs = [x for x in tree if tree[x] is None]
     nested = rng.sample(subdirs, min(len(subdirs), rng.choice([0, 0, 1, 2])))
+    if rng.random() < 0.12:
+        # sibling cards with equally named nested folders (ReelA/Clips, ReelB/Clips): their manifests get the same file
+        # name whenever they are written at the same generation number in the same second
+        twin = rng.choice(["Clips", "A001", "sound files"])
+        nested = []
+        for par in ("ReelA", "ReelB") + (("ReelC",) if rng.random() < 0.3 else ()):
+            os.makedirs(os.path.join(root, par, twin))
+            with open(os.path.join(root, par, twin, "c.bin"), "wb") as f:
+                f.write(rng.randbytes(4))
+            tree[par] = None
+            tree[par + "/" + twin] = None
+            tree[par + "/" + twin + "/c.bin"] = b""
+            nested.append(par + "/" + twin)
+        cs.count("equally_named_nested_histories")
     zone = rng.choice(ZONES)
     clock.set_zone(zone)
     now = rng.randint(1_000_000_000, 1_900_000_000)
@@ -54,7 +72,7 @@ def run_case(cs):
         r = drive.run("create", [os.path.join(root, n), "-h", rng.choice(world.FORMATS)])
         steps.append(f"seal child {n!r} => {r.exit}")
     base = 1
-    if not nested and rng.random() < 0.08:
+    if not nested and rng.random() < 0.08 and len(os.fsencode(rootname)) < 200:
         # a long-lived history: the run sequence crosses 9999 -> 10000 (the loader accepts numbers of 4 or more digits)
         r0 = drive.run("create", [root, "-h", "md5"])
         if r0.exit == 0:
@@ -92,7 +110,7 @@ def run_case(cs):
                 ms = world.manifests(root, h)
                 if ms and rng.random() < 0.7:
                     junk = rng.choice(["._" + ms[-1], ".DS_Store", "notes.txt", "._ascmhl_chain.xml", "Thumbs.db", "ascmhl_chain.xml.tmp", "0099_stale_2020-01-01_000000Z.mhl.tmp"])
-                    if not os.path.exists(os.path.join(ad, junk)):
+                    if not os.path.exists(os.path.join(ad, junk)) and len(os.fsencode(junk)) <= 255:
                         with open(os.path.join(ad, junk), "wb") as f:
                             f.write(b"\x00\x05\x16\x07 junk" if not junk.endswith(".tmp") else b"<stale>\n" + b"  <left over by an interrupted run/>\n" * 600)
                         steps.append(f"junk {junk!r} in {h!r}")
